@@ -119,6 +119,93 @@ def run_manager_case(kind, mode, extra, rcc, size_known, scratch):
     return R['s3'].calls, R['outcome'], R.get('exc'), R['s3'].anomalies
 
 
+def _submit(m, s, s3, kind, size, extra_obj, scratch, tag=''):
+    if kind == 'upload':
+        p = os.path.join(scratch.path, 'src' + tag)
+        with open(p, 'wb') as fh:
+            fh.write(payload(size))
+        return m.upload(p, BUCKET, 'dst' + tag, extra_args=extra_obj)
+    s3.put(BUCKET, 'k' + tag, payload(size))
+    if kind == 'download':
+        return m.download(BUCKET, 'k' + tag, SinkStream(s), extra_args=extra_obj)
+    if kind == 'copy':
+        return m.copy({'Bucket': BUCKET, 'Key': 'k' + tag}, BUCKET, 'dst' + tag, extra_args=extra_obj)
+    return m.delete(BUCKET, 'k' + tag, extra_args=extra_obj)
+
+
+def run_sequence_case(first, second, extra, rccs, scratch):
+    """Histories: the caller hands the SAME extra_args dict object to two consecutive transfers
+    (first, second are (kind, mode); rccs the request_checksum_calculation of the client each one
+    runs on - the same manager when equal).  -> calls of the second transfer, outcome, exc, anomalies"""
+    s = Sched()
+    R = {}
+
+    def main():
+        s3 = FakeS3(s)
+        harness.set_adjuster({'min_size': 1, 'max_size': 1000, 'max_parts': 1000})
+        cfg = TransferConfig(multipart_threshold=4, multipart_chunksize=2, io_chunksize=2)
+        R['s3'] = s3
+        ms = {}
+        for rcc in set(rccs):
+            ms[rcc] = TransferManager(FakeClient(s3, s, rcc=rcc), cfg, FaultyOSUtils(s), executor_cls=NonThreadedExecutor)
+        shared = dict(extra)
+        try:
+            f = _submit(ms[rccs[0]], s, s3, first[0], 5 if first[1] != 'single' else 3, shared, scratch, '1')
+            f.result()
+            R['cut'] = len(s3.calls)
+            R['an_cut'] = len(s3.anomalies)
+            f = _submit(ms[rccs[1]], s, s3, second[0], 5 if second[1] != 'single' else 3, shared, scratch, '2')
+            f.result()
+            R['outcome'] = 'ok'
+        except Exception as e:  # noqa
+            R['outcome'] = 'exc'
+            R['exc'] = e
+        finally:
+            harness.set_adjuster(None)
+    s.run_inline(main)
+    cut = R.get('cut')
+    if cut is None:
+        raise detsched.HarnessError(f'first transfer of a sequence case failed: {R.get("exc")!r}')
+    return R['s3'].calls[cut:], R['outcome'], R.get('exc'), R['s3'].anomalies[R['an_cut']:]
+
+
+def sequence_cases():
+    cases = []
+    seconds = [('download', 'single'), ('download', 'ranged'), ('copy', 'single'), ('copy', 'multipart'),
+               ('delete', 'single'), ('upload', 'single'), ('upload', 'multipart')]
+    for first in (('upload', 'single'), ('upload', 'multipart')):
+        for second in seconds:
+            for rccs in (('when_supported', 'when_supported'), ('when_required', 'when_required'),
+                         ('when_supported', 'when_required')):
+                extras = [{}, {'RequestPayer': 'requester'}]
+                if second[0] == 'upload':
+                    extras += [{fo: f'v-{fo}'} for fo in FULL_OBJECT[:2]] + [{'ChecksumAlgorithm': 'SHA256'}]
+                for E in extras:
+                    cases.append((first, second, E, rccs))
+    # and the other direction / other first transfers: nothing an earlier transfer did may leak
+    for first in (('copy', 'multipart'), ('download', 'ranged'), ('delete', 'single')):
+        for second in seconds:
+            cases.append((first, second, {'RequestPayer': 'requester'}, ('when_supported', 'when_supported')))
+    return cases
+
+
+def run_sequence_cases():
+    sd = ScratchDir('c15s')
+    viol = []
+    n = 0
+    try:
+        for first, second, E, rccs in sequence_cases():
+            calls, oc, exc, anomalies = run_sequence_case(first, second, E, rccs, sd)
+            n += 1
+            for sig, msg in judge(second[0], second[1], E, rccs[1], False, calls, oc, exc, anomalies, fe='manager-seq'):
+                viol.append({'sig': sig, 'msg': msg + f' [second transfer of a sequence sharing one extra_args dict: first={first} '
+                                                      f'second={second} rcc={rccs} extra={sorted(E)}]',
+                             'replay': {'kind': 'seq', 'args': [list(first), list(second), E, list(rccs)]}})
+    finally:
+        sd.cleanup()
+    return n, viol
+
+
 def expected_for(kind, mode, op, E, rcc, role):
     """Parameters (beyond the structural ones) operation `op` must receive."""
     mem = members(op)
@@ -423,6 +510,16 @@ def replay(data):
         errs = judge(kind, mode, E, rcc, known, calls, oc, exc, anomalies)
         rec = [(c['op'], {a: str(v) for a, v in c['kwargs'].items() if a not in STRUCTURAL}) for c in calls]
         return {'received': rec, 'violations': errs, 'digest': repr(rec)}
+    if k == 'seq':
+        first, second, E, rccs = data['args']
+        sd = ScratchDir('c15r')
+        try:
+            calls, oc, exc, anomalies = run_sequence_case(tuple(first), tuple(second), E, tuple(rccs), sd)
+        finally:
+            sd.cleanup()
+        errs = judge(second[0], second[1], E, rccs[1], False, calls, oc, exc, anomalies, fe='manager-seq')
+        rec = [(c['op'], {a: str(v) for a, v in c['kwargs'].items() if a not in STRUCTURAL}) for c in calls]
+        return {'received': rec, 'violations': errs, 'digest': repr(rec) + repr(exc)}
     if k == 'abort':
         sd = ScratchDir('c15r')
         try:
@@ -466,14 +563,17 @@ def run(tier, seed):
         viol.append({'sig': sig, 'msg': msg, 'replay': None})
     nf, vf, sf = frontend_cases()
     viol.extend(vf)
-    total = n + na + nd + nf
+    nq, vq = run_sequence_cases()
+    viol.extend(vq)
+    total = n + na + nd + nf + nq
     cov = {'evaluations': total, 'distinct_nontrivial': len(sigs) + len(sf) + na,
            'rule': 'one transfer per (front-end, method, mode, size known?, request_checksum_calculation, extra_args) case, exhaustive over the case '
                    'list; the kwargs of every call are validated by botocore\'s ParamValidator against the operation\'s input shape and compared with the '
                    'expectation table; distinct = distinct cases',
            'samples': samples, 'exhaustive': True, 'states': total, 'transitions': total,
            'traces_validated_against_impl': total,
-           'parts': {'manager cases': n, 'abort-cleanup cases': na, 'disallowed-name cases': nd, 'legacy + process-pool cases': nf}}
+           'parts': {'manager cases': n, 'abort-cleanup cases': na, 'disallowed-name cases': nd, 'legacy + process-pool cases': nf,
+                     'two-transfer histories sharing one extra_args dict': nq}}
     return {'coverage': cov, 'violations': viol, 'level': 'exploration',
             'assumptions': ['expectation table written from the statement + installed botocore S3 model',
                             'at most one full-object checksum per case',
